@@ -176,6 +176,21 @@ def mpint_raw(z):
             n += 1
 
 
+def worst_pad(blob, nstrings=6):
+    """Largest zero padding (`Message.get_bytes` pads short reads below 2^20) that reading ``nstrings``
+    consecutive strings from ``blob`` would produce.  Generators cap it: megabyte pads make paramiko's own
+    inflate_long (and the interpreter-run model) quadratic-slow without exercising anything new."""
+    pos, worst = 0, 0
+    for _ in range(nstrings):
+        n = int.from_bytes(blob[pos:pos + 4].ljust(4, b"\0"), "big")
+        pos = min(len(blob), pos + 4)
+        avail = len(blob) - pos
+        if avail < n < (1 << 20):
+            worst = max(worst, n - avail)
+        pos = min(len(blob), pos + n)
+    return worst
+
+
 def call_verify(key, data, blob):
     """('ok', bool) | ('exc', exception) — never raises."""
     from paramiko.message import Message
